@@ -41,6 +41,16 @@ struct SurfaceEmplacer
 
     void operator()(SurfaceType st, Span<real_type const> data)
     {
+        if (st == SurfaceType::inv)
+        {
+            // Involutes are written by the exporter but are not dispatched by
+            // visit_surface_type (they are not supported at runtime)
+            using StorageSpan = Involute::StorageSpan;
+            surfaces->emplace_back(std::in_place_type<Involute>,
+                                   StorageSpan{data.data(), data.size()});
+            return;
+        }
+
         // Given the surface type, emplace a surface variant using the given
         // data.
         return visit_surface_type(
